@@ -129,6 +129,28 @@ def g_classes(r):
     return specs
 
 
+def g_resolver(r):
+    """One module importing many classes, several of them with the SAME local name from different namespaces."""
+    used = set()
+    nss = ["urn:" + g_name(r, set()).lower() for _ in range(r.randint(3, 6))]
+    nss = list(dict.fromkeys(nss))
+    locs = [g_name(r, used) for _ in range(r.randint(1, 4))]
+    home = nss[0]
+    others = ["{%s}%s" % (ns, ln) for ns in nss[1:] for ln in locs if r.random() < 0.85]
+    own = ["{%s}%s" % (home, g_name(r, used)) for _ in range(r.randint(1, 3))]
+    if r.random() < 0.5 and locs:
+        own.append("{%s}%s" % (home, locs[0]))  # the module defines the shared name itself: protected slug
+    specs = []
+    for i, q in enumerate(own):
+        deps = [[w, "plain"] for w in others if r.random() < 0.7] + [[w, "plain"] for w in own[:i] if r.random() < 0.4]
+        r.shuffle(deps)
+        specs.append({"qname": q, "deps": deps})
+    for q in others:
+        specs.append({"qname": q, "deps": []})
+    r.shuffle(specs)
+    return {"op": "resolver", "classes": specs, "module": own}
+
+
 TYPES = ["str", "bool", "Decimal", "float", "XmlDuration", "XmlDateTime", "XmlTime", "XmlDate", "XmlPeriod", "bytes", "QName",
          "int", "object"]
 
@@ -257,6 +279,92 @@ def g_schema_set(r):
         out.append('<xs:element name="%s" type="%s:%s" substitutionGroup="%s:%s"/>' % (sub, ns["pfx"], ns["types"][0], ns["pfx"], head))
         out.append("</xs:schema>")
         files[ns["file"]] = "\n".join(out)
+    return files
+
+
+def g_set_stress(r):
+    """Layered multi-namespace set aimed at every place where a handler could iterate a SET of strings: K leaf namespaces
+    that all define the same local names (type, enum, element, group, attributeGroup), one root module that imports them
+    all (imports with equal local names -> aliases), restrictions that drop >= 2 (here 5..10) parent elements/wildcards,
+    several substitution groups with >= 4 members, several attribute groups / groups flattened into one class, duplicate
+    field names, a union over all the same-named enums, extensions across modules.  Layered: no circular imports, so that
+    all five structure styles generate.  Names are random so that string hashes differ from set to set."""
+    used = set()
+    K = r.randint(4, 6)
+    shared, kind, item, grp, ag = (g_name(r, used) for _ in range(5))
+    if r.random() < 0.5:
+        shared = shared.lower()
+    leaves = []
+    files = {}
+    for i in range(K):
+        uri = "urn:%s:%s" % (g_name(r, used).lower(), g_name(r, used).lower())
+        fn = "%s/%s.xsd" % (r.choice(["lib", "common", "x"]), g_name(r, used).lower())
+        a3 = [g_name(r, used) for _ in range(3)]
+        e2 = [g_name(r, used) for _ in range(2)]
+        vals = r.sample(["A", "b", "C1", "d-e", "f_g", "H h", "1x", "None"], 3)
+        files[fn] = (
+            '<xs:schema xmlns:xs="%s" targetNamespace="%s" xmlns:t="%s" elementFormDefault="qualified">' % (XS, uri, uri)
+            + '<xs:simpleType name="%s"><xs:restriction base="xs:string">%s</xs:restriction></xs:simpleType>' % (
+                kind, "".join('<xs:enumeration value="%s"/>' % v for v in vals))
+            + '<xs:complexType name="%s"><xs:sequence><xs:element name="v%d" type="xs:string"/>'
+              '<xs:element name="k" type="t:%s" minOccurs="0"/></xs:sequence><xs:attribute name="id" type="xs:ID"/></xs:complexType>' % (shared, i, kind)
+            + '<xs:element name="%s" type="t:%s"/>' % (item, shared)
+            + '<xs:group name="%s"><xs:sequence>%s</xs:sequence></xs:group>' % (
+                grp, "".join('<xs:element name="%s" type="xs:string" minOccurs="0"/>' % e for e in e2))
+            + '<xs:attributeGroup name="%s">%s</xs:attributeGroup>' % (
+                ag, "".join('<xs:attribute name="%s" type="xs:string"/>' % a for a in a3))
+            + "</xs:schema>")
+        leaves.append({"uri": uri, "file": fn, "pfx": "l%d" % i})
+    root_uri = "urn:%s:app" % g_name(r, used).lower()
+    root_file = "%s.xsd" % g_name(r, used).lower()
+    out = ['<xs:schema xmlns:xs="%s" targetNamespace="%s" xmlns:t="%s" elementFormDefault="qualified" %s>' % (
+        XS, root_uri, root_uri, " ".join('xmlns:%s="%s"' % (lf["pfx"], lf["uri"]) for lf in leaves))]
+    for lf in leaves:
+        out.append('<xs:import namespace="%s" schemaLocation="%s"/>' % (lf["uri"], lf["file"]))
+    extra = [g_name(r, used) for _ in range(r.randint(3, 5))]
+    # base + restrictions that drop many members
+    out.append('<xs:complexType name="base"><xs:sequence><xs:element name="keep" type="xs:string"/>'
+               + "".join('<xs:element name="m%d" type="%s:%s" minOccurs="0"/>' % (i, lf["pfx"], shared) for i, lf in enumerate(leaves))
+               + "".join('<xs:element name="%s" type="xs:string" minOccurs="0"/>' % e for e in extra)
+               + '<xs:any namespace="##other" processContents="lax" minOccurs="0"/></xs:sequence>'
+               + "".join('<xs:attributeGroup ref="%s:%s"/>' % (lf["pfx"], ag) for lf in leaves)
+               + "</xs:complexType>")
+    out.append('<xs:complexType name="narrow"><xs:complexContent><xs:restriction base="t:base"><xs:sequence>'
+               '<xs:element name="keep" type="xs:string"/></xs:sequence></xs:restriction></xs:complexContent></xs:complexType>')
+    out.append('<xs:complexType name="narrow2"><xs:complexContent><xs:restriction base="t:base"><xs:sequence>'
+               '<xs:element name="keep" type="xs:string"/><xs:element name="m0" type="%s:%s" minOccurs="0"/>'
+               '</xs:sequence></xs:restriction></xs:complexContent></xs:complexType>' % (leaves[0]["pfx"], shared))
+    out.append('<xs:complexType name="narrow3"><xs:complexContent><xs:restriction base="t:narrow2"><xs:sequence>'
+               '<xs:element name="keep" type="xs:string"/></xs:sequence></xs:restriction></xs:complexContent></xs:complexType>')
+    # same-named global elements, groups and enums of all leaves used by one class
+    out.append('<xs:complexType name="user"><xs:sequence>'
+               + "".join('<xs:element ref="%s:%s" minOccurs="0"/>' % (lf["pfx"], item) for lf in leaves)
+               + "".join('<xs:group ref="%s:%s"/>' % (lf["pfx"], grp) for lf in leaves)
+               + "</xs:sequence>"
+               + "".join('<xs:attribute name="a%d" type="%s:%s"/>' % (i, lf["pfx"], kind) for i, lf in enumerate(leaves))
+               + "</xs:complexType>")
+    out.append('<xs:simpleType name="anyKind"><xs:union memberTypes="%s xs:int xs:date"/></xs:simpleType>' % " ".join(
+        "%s:%s" % (lf["pfx"], kind) for lf in leaves))
+    # substitution groups with many members
+    for h in ("H1", "H2", "H3"):
+        out.append('<xs:element name="%s" type="xs:anyType" abstract="true"/>' % h)
+        for lf in r.sample(leaves, 4):
+            out.append('<xs:element name="%s" type="%s:%s" substitutionGroup="t:%s"/>' % (g_name(r, used), lf["pfx"], shared, h))
+    out.append('<xs:complexType name="subsUser"><xs:sequence><xs:element ref="t:H1" maxOccurs="unbounded"/>'
+               '<xs:element ref="t:H2" minOccurs="0"/><xs:choice maxOccurs="unbounded"><xs:element ref="t:H3"/>'
+               '<xs:element name="alt" type="t:anyKind"/></xs:choice></xs:sequence></xs:complexType>')
+    # extension across modules, duplicate field names
+    out.append('<xs:complexType name="ext"><xs:complexContent><xs:extension base="%s:%s"><xs:sequence>%s</xs:sequence>'
+               '</xs:extension></xs:complexContent></xs:complexType>' % (
+                   leaves[0]["pfx"], shared,
+                   "".join('<xs:element name="%s" type="%s:%s" minOccurs="0"/>' % (n, lf["pfx"], shared)
+                           for n, lf in zip(["value", "Value", "VALUE", "value_", "vAlue", "valuE"], leaves))))
+    out.append('<xs:element name="root"><xs:complexType><xs:sequence><xs:element name="n" type="t:narrow"/>'
+               '<xs:element name="n2" type="t:narrow2"/><xs:element name="n3" type="t:narrow3"/><xs:element name="u" type="t:user"/>'
+               '<xs:element name="s" type="t:subsUser"/><xs:element name="e" type="t:ext"/>'
+               '<xs:element name="%s" type="t:base"/></xs:sequence></xs:complexType></xs:element>' % shared)
+    out.append("</xs:schema>")
+    files[root_file] = "".join(out)
     return files
 
 
@@ -452,7 +560,7 @@ def run(ck: Check):
             rp = json.load(f).get("replay") or {}
         ck.notes.append("replay of " + ck.replay_file)
     KIND_OF = {"scc": "scc", "topo": "topo", "clusters": "clusters", "class_list": "class_list", "types": "types",
-               "sort_types_direct": "types_direct", "reset": "reset", "imports": "imports"}
+               "sort_types_direct": "types_direct", "reset": "reset", "imports": "imports", "resolver": "resolver"}
 
     # ================================================================== A. the modelled cores
     # (runs in a background thread, with its own generator, while the pipeline sweep below keeps the other cores busy)
@@ -505,6 +613,8 @@ def run(ck: Check):
             add("clusters", op)
         for _ in range(50 * N if gen_cores else 0):
             add("class_list", {"op": "class_list", "classes": g_classes(r)})
+        for _ in range(60 * N if gen_cores else 0):
+            add("resolver", g_resolver(r))
         for _ in range(80 * N if gen_cores else 0):
             add("types", {"op": "types", "types": g_types(r)})
         for tw in (["bool", "object", "XmlDateTime", "object", "bytes"], ["bytes", "XmlDateTime", "object", "QName"],
@@ -651,6 +761,18 @@ def run(ck: Check):
         for i in coq("classlist_agree", "list (str * list str) * list str * (list str + nat)", "agree_class_list", items, terms):
             ck.failure("corr-class-list", "model and implementation disagree on create_class_list", {"op": ops[i], "impl": per_seed[0][i]})
 
+        # ---- DependenciesResolver.process on one module (class list, imports, sorted imports; aliases compared across seeds)
+        same_everywhere("resolver", lambda x: (x.get("class_list"), x.get("imports"), x.get("aliases"), x.get("err")))
+        items = idx("resolver")
+        prs = lambda l: clist(l, lambda m: f"({cstr(m[0])}, {cstr(m[1])})", "(str * str)")  # noqa: E731
+        terms = [f"({c_dict(per_seed[0][i]['D'])}, {c_lstr(per_seed[0][i]['module'])}, {prs(per_seed[0][i]['names'])}, "
+                 f"{c_sum(prs(per_seed[0][i].get('sorted', [])), err_of(per_seed[0][i]))})" for i in items]
+        for i in items:
+            distinct.add(("resolver", i))
+        for i in coq("resolver_agree", "list (str * list str) * list str * list (str * str) * (list (str * str) + nat)", "agree_resolver", items, terms):
+            ck.failure("corr-resolver", "model and implementation disagree on DependenciesResolver.process (class list -> imports -> sorted imports)",
+                       {"op": ops[i], "impl": per_seed[0][i]})
+
         # ---- native types
         items, terms = [], []
         for si, res in enumerate(per_seed):
@@ -756,6 +878,13 @@ def run(ck: Check):
             if name in ("dtd", "artists", "series", "stripe", "mixed-kinds") and st == "namespace-clusters" and ck.quick:
                 continue
             add_job(f"{name}/{st}", sources, g_options(r, st), entry, timeout=400 if name == "mathml3" else 90)
+    # set-iteration stress sets: every structure style (default options) + two random option sets, under every seed
+    for k in range(ck.n(2, 8) if rp is None else 0):
+        sources = g_set_stress(r)
+        for st in STYLES:
+            add_job(f"stress{k}/{st}", sources, {"structure_style": st})
+        for st in r.sample(STYLES, 2):
+            add_job(f"stress{k}/{st}+opts", sources, g_options(r, st))
     ngen = ck.n(10, 50) if rp is None else 0
     for k in range(ngen):
         sources = g_schema_set(r)
